@@ -53,7 +53,7 @@ type Config struct {
 
 // ServeHTTP serves a gzipped response if the client supports it.
 func (g Gzip) ServeHTTP(w http.ResponseWriter, r *http.Request) (int, error) {
-	if !strings.Contains(r.Header.Get("Accept-Encoding"), "gzip") {
+	if !acceptsGzip(r.Header.Get("Accept-Encoding")) {
 		return g.Next.ServeHTTP(w, r)
 	}
 outer:
@@ -112,6 +112,36 @@ outer:
 
 	// no matching filter
 	return g.Next.ServeHTTP(w, r)
+}
+
+// acceptsGzip tells whether an Accept-Encoding header value offers gzip:
+// one of its comma separated codings is gzip (or its alias x-gzip) and
+// does not carry a quality value of zero, which means "not acceptable".
+func acceptsGzip(acceptEncoding string) bool {
+	for _, coding := range strings.Split(acceptEncoding, ",") {
+		params := strings.Split(coding, ";")
+		name := strings.Trim(params[0], " \t")
+		if name != "gzip" && name != "x-gzip" {
+			continue
+		}
+		refused := false
+		for _, param := range params[1:] {
+			param = strings.Trim(param, " \t")
+			if len(param) >= 2 && (param[0] == 'q' || param[0] == 'Q') && param[1] == '=' &&
+				isZeroQValue(strings.Trim(param[2:], " \t")) {
+				refused = true
+			}
+		}
+		if !refused {
+			return true
+		}
+	}
+	return false
+}
+
+// isZeroQValue tells whether q is a quality value of zero: 0, 0., 0.0, ...
+func isZeroQValue(q string) bool {
+	return q == "0" || (strings.HasPrefix(q, "0.") && strings.Trim(q[2:], "0") == "")
 }
 
 // gzipResponseWriter wraps the underlying Write method
